@@ -408,9 +408,29 @@ def judgeOp (env : Env) (parts : List String) (resp : String) : Verdict :=
     | none => .skip
   | _ => .skip
 
+def judgeCli (env : Env) (parts : List String) (resp : String) : Judge.Verdict :=
+  let X : Cli.Ctx Prim.Secp.Pt := ⟨P, CV, env.nfkd.nfkd⟩
+  match parts with
+  | ["cli.sign_tx", mn, pw, sel, j, so, allow] =>
+    match acctArg mn pw sel, unhex j with
+    | some a, some j =>
+      match Cli.privateKey X a with
+      | .ok d => Judge.judgeSignTx d j (so == "1") (allow == "1") resp
+      | _ => .skip
+    | _, _ => .skip
+  | ["cli.hex_encode", d] => match unhex d with
+    | some b => Judge.judgeHexEncode b resp
+    | none => .skip
+  | ["cli.hex_decode", d] => match unhex d with
+    | some b => Judge.judgeHexDecode b resp
+    | none => .skip
+  | _ => .skip
+
 def runJudgeLine (env : Env) (line : String) : String :=
   match line.splitOn "\t" with
-  | [op, resp] => (judgeOp env (op.splitOn " ") resp).render
+  | [op, resp] =>
+    if op.startsWith "cli." then (judgeCli env (op.splitOn " ") resp).render
+    else (judgeOp env (op.splitOn " ") resp).render
   | _ => "skip"
 
 end Hdw.Driver
